@@ -2,7 +2,7 @@ import time, vf
 PID = "C20"
 H = vf.VERIF + "/checks/C20/harness.cpp"
 STUB = [vf.VERIF + "/engine/sched/log_stub.cpp"]
-FIRE = ["weekly-10h-everyday-tz0", "weekly-00h-monday-tz+480", "weekly-235959-weekend-tz-300", "weekly-empty-mask",
+FIRE = ["weekly-10h-everyday-tz0", "weekly-10h-everyday-start-5ms-before", "weekly-00h-monday-tz+480", "weekly-235959-weekend-tz-300", "weekly-empty-mask",
         "oneshot-10h-tz0", "oneshot-00h-tz+345", "cron-daily-10h-tz0", "cron-every-30min-tz+330",
         "cron-yearly-40-days-ahead", "cron-yearly-50-days-ahead", "cron-yearly-100-days-ahead", "cron-feb29-400-days-ahead",
         "workday-next-workday-60-days-ahead"]
@@ -10,15 +10,14 @@ def main(tier, args):
     t0 = time.time()
     srcs = vf.module_sources("alarm", "event")
     asan = vf.build("C20/alarm_asan", [H], srcs, mode="asan", plain_srcs=STUB)
-    opt = vf.build("C20/alarm_opt", [H], srcs, mode="opt", plain_srcs=STUB)
     quick = tier == "quick"
     depth, dl = (6, 60) if quick else (8, 1100)
     res = vf.Result(); log = open(vf.BUILD + "/C20/log.txt", "w")
     env = {"VERIF_DEADLINE_S": str(dl)}
     cmds = []
-    # firing histories first (the longest jobs), then the sweeps; the every-second-of-a-week sweep uses the -O2 build
+    # firing histories first (the longest jobs), then the sweeps; ASan+UBSan build for everything (the week sweep runs 5*10^7 calls/s under ASan, -O2 is not needed)
     cmds += [("fire:" + c, [asan, "fire", c, str(depth)]) for c in FIRE]
-    cmds += [("weekly-full:%d" % i, [opt, "sweep-weekly-full", str(i), "16", tier]) for i in range(16)]
+    cmds += [("weekly-full:%d" % i, [asan, "sweep-weekly-full", str(i), "16", tier]) for i in range(16)]
     cmds += [("weekly-tz:%d" % i, [asan, "sweep-weekly-tz", str(i), "16", tier]) for i in range(16)]
     cmds += [("cron:%d" % i, [asan, "sweep-cron", str(i), "16", tier]) for i in range(16)]
     cmds += [("workday:%d" % i, [asan, "sweep-workday", str(i), "8", tier]) for i in range(8)]
@@ -37,7 +36,7 @@ def main(tier, args):
                    "depth<=%d on %d weekly/one-shot/cron/workday configurations (targets 40/50/60/100/400 days ahead included) under virtual wall + monotonic clocks; state = full alarm + "
                    "timer + loop-timer record + model; oracle = one callback per matching instant, never two, none while disabled, one-shot once, armed delay (TimerEvent interval and "
                    "loop timer record) >= wall distance at arming, armed target = earliest matching instant"
-                   % ("stride-7 grid for {1,43200,86398}" if quick else "every second for 13 more values", "46 representative" if quick else "all 128", depth, len(FIRE)),
+                   % ("{1,23296,43200,86398} at every second and 24 more values on a stride-7 grid" if quick else "every 5-minute value, every hour +-1 and 16 boundary values at every second", "40 (all with <=2 or >=6 days set + 3 patterns)" if quick else "all 128", depth, len(FIRE)),
               assumptions=["instants within one week + 14 h of 2^32 are excluded; so are inputs whose local time now+tz is negative",
                            "a 'not found' answer is accepted beyond the implementation's search horizon (weekly 8 days, workday 367 days, cron 4 years)",
                            "clock advances stop at each matching instant (+<=1 s) and are followed by a loop pass: no catch-up is demanded",
